@@ -169,6 +169,25 @@ Theorem C18_every_dropped_error_is_validated :
 Proof. intros s Hin. apply site_ok_spec. exact (proj1 (forallb_forall _ _) all_sites_accounted s Hin). Qed.
 Print Assumptions C18_every_dropped_error_is_validated.
 
+(** What the [ValidatedSame] class means semantically, for ANY partial function [f] shared by validator and use site
+    (parseDuration, ParseSeverity, New(Raw)TemplatedRegexp, regexp.Compile of the anchored form, …): if the validator is
+    unconditional, or validator and use are both conditional on the value being non-empty — the two cases
+    [validator_covers] accepts — then for every accepted value the error the use site drops is never an error; and in
+    the shape it rejects (validated only when non-empty, used always, [f] failing on the empty value) an accepted
+    configuration does reach a dropped error. *)
+Theorem C18_validated_same_never_drops_an_error :
+  forall (A B : Type) (f : A -> option B) (is_empty : A -> bool),
+    (forall gv gu a d, (gv = true -> gu = true) -> validator_accepts A B f is_empty gv a = true ->
+                       use_result A B f is_empty gu a d <> None) /\
+    (forall a d, is_empty a = true -> f a = None ->
+                 validator_accepts A B f is_empty true a = true /\ use_result A B f is_empty false a d = None).
+Proof.
+  intros A B f is_empty. split.
+  - intros gv gu a d. exact (same_function_never_drops A B f is_empty gv gu a d).
+  - intros a d. exact (guarded_validator_unguarded_use_drops A B f is_empty a d).
+Qed.
+Print Assumptions C18_validated_same_never_drops_an_error.
+
 (** The reviewed table itself is in step with the source: no row is stale; the Must wrappers wrap the functions the
     validators call; matchRegex and validateMatchRegex compile the same anchored expression (fix 4986535). *)
 Theorem C18_every_dropped_error_is_reviewed :
